@@ -102,7 +102,7 @@ class Reader:
 
 def run_driver(lines, timeout=1800, exe_name="driver_handoff"):
     """Send request lines to the model driver, return answer lines (same count)."""
-    exe = os.path.join(LEAN, ".lake", "build", "bin", exe_name)
+    exe = DRIVER_COPIES.get(exe_name) or os.path.join(LEAN, ".lake", "build", "bin", exe_name)
     data = "\n".join(lines) + "\n"
     if not os.path.exists(exe):
         raise RuntimeError("model driver %s is not built" % exe_name)
@@ -116,6 +116,10 @@ def run_driver(lines, timeout=1800, exe_name="driver_handoff"):
     if len(out) != len(lines):
         raise RuntimeError("driver answered %d lines for %d requests; stderr=%s" % (len(out), len(lines), p.stderr[-2000:]))
     return out
+
+
+# private copies of driver executables made by vcheck after the build (name -> path)
+DRIVER_COPIES = {}
 
 
 def close(a, b, rel=1e-9, abs_=1e-9):
